@@ -548,6 +548,7 @@ func RunLifecycleCounts(r *monitor.Run) {
 // Run is the entry point.
 func Run(r *monitor.Run) {
 	RunLifecycleCounts(r)
+	RunRepeatedRefusals(r)
 	RunEnforcement(r)
 	RunComposition(r)
 	RunRestored(r)
